@@ -1603,7 +1603,7 @@ def value_type_table(fns):
         fn = mir.find(fns, sel)
         short = re.sub(r"\\", "", sel).split(">::")[-1].rstrip("(")
         where = "ingestion" if "ingest" in sel else ("tree" if "tree/mod" in sel else ("RelocatingCompaction" if "flavour" in sel else "InternalValue"))
-        a = Automaton(fn, "O13.3 %s::%s creates %s at the caller's seqno" % (where, short, want or ctor.split("::")[1]))
+        a = Automaton(fn, "O13.3t %s::%s creates %s" % (where, short, want or ctor.split("::")[1]))
         cs = calls(fn, ctor)
         if len(cs) != 1:
             # a different constructor is used: decidable as wrong only if it is one of the known sibling constructors
@@ -1631,12 +1631,19 @@ def value_type_table(fns):
             l = RE_LOCAL.search(args[si])
             defs = [st for b in live_blocks(fn) for st in b.stmts if l and st.startswith(l.group(0) + " = ")]
             ok_s = len(defs) == 1 and re.match(sre, defs[0].split(" = ", 1)[1]) is not None
-        a.glue = [("type operand = ValueType::%s (found %s)" % (want, got), "proved" if ok_t else "refuted", 0.0),
-                  ("seqno operand is the caller's / ingestion's seqno", "proved" if ok_s else "refuted", 0.0)]
+        # two queries per row, so that a property can list the half it depends on (type: C13 / C14, seqno: C18)
+        a.name = "O13.3t %s::%s creates entry type %s" % (where, short, want or ctor.split("::")[1])
+        a.glue = [("type operand = ValueType::%s (found %s)" % (want, got), "proved" if ok_t else "refuted", 0.0)]
         a.var("x")
-        a.event("call:entry built with the WRONG type or seqno", [] if (ok_t and ok_s) else [c.idx])
-        a.require("call:entry built with the WRONG type or seqno", "false",
-                  "%s::%s writes a %s entry (expected %s)%s" % (where, short, got, want, "" if ok_s else " / with a seqno that is not the caller's"))
+        a.event("call:entry built with the WRONG type", [] if ok_t else [c.idx])
+        a.require("call:entry built with the WRONG type", "false", "%s::%s writes a %s entry (expected %s)" % (where, short, got, want))
+        out.append(a)
+        a2 = Automaton(fn, "O13.3s %s::%s stamps the entry with the caller's seqno" % (where, short))
+        a2.glue = [("seqno operand is the caller's / ingestion's / the index entry's seqno", "proved" if ok_s else "refuted", 0.0)]
+        a2.var("x")
+        a2.event("call:entry built with the WRONG seqno", [] if ok_s else [c.idx])
+        a2.require("call:entry built with the WRONG seqno", "false", "%s::%s writes its entry with a seqno that is not the caller's" % (where, short))
+        a = a2
         out.append(a)
     return out
 
@@ -1978,3 +1985,88 @@ def hash_index_guard(fns):
 
 
 SPECS["O12.7"] = [hash_index_guard]
+
+
+# ---------------------------------------------------------------------------------------------
+# C10 O10.8: a blob is returned only after its checksum (over key and payload) matched the stored one
+# ---------------------------------------------------------------------------------------------
+
+def blob_read_verifies(fns):
+    fn = mir.find(fns, r"src/vlog/blob_file/reader\.rs[^>]*>::get\(")
+    a = Automaton(fn, "O10.8 blob_file::Reader::get returns a value only after xxh3(key ++ payload) equalled the checksum stored in the blob header")
+    dig = one(calls(fn, r"Xxh3::digest128$"), "Xxh3::digest128")
+    rd = one(calls(fn, r"ReadBytesExt>::read_u128::<LittleEndian>$"), "read_u128 of the stored checksum")
+    ups = calls(fn, r"Xxh3::update$")
+    # the stored checksum local: Continue payload of read_u128's `?`
+    rok, rerr, _ = ok_err(fn, rd, "read_u128")
+    stored = None
+    for st in fn.blocks[rok].stmts:
+        m = re.match(r"^(_\d+) = (copy|move) \(\((_\d+) as Continue\)\.0: u128\)$", st)
+        if m:
+            stored = m.group(1)
+    def copies_of(x):
+        out, changed = {x}, True
+        while changed:
+            changed = False
+            for bb in live_blocks(fn):
+                for s2 in bb.stmts:
+                    mm = re.match(r"^(_\d+) = (copy|move) (_\d+)$", s2)
+                    if mm and mm.group(3) in out and mm.group(1) not in out:
+                        out.add(mm.group(1))
+                        changed = True
+        return out
+    stored_set = copies_of(stored) if stored else set()
+    dig_set = copies_of(dig.dest)
+    cmp_sw, eq_edge, ne_edge = None, None, None
+    for b in live_blocks(fn):
+        if b.kind != "switch":
+            continue
+        for st in b.stmts:
+            m = re.match(r"^(_\d+) = (Ne|Eq)\(copy (_\d+), copy (_\d+)\)$", st)
+            if m and m.group(1) in b.args and ((m.group(3) in stored_set and m.group(4) in dig_set) or (m.group(4) in stored_set and m.group(3) in dig_set)):
+                t, f = bool_edges(fn, b, m.group(1))
+                eq_edge = edge_block(fn, b.idx, f if m.group(2) == "Ne" else t)
+                ne_edge = edge_block(fn, b.idx, t if m.group(2) == "Ne" else f)
+                cmp_sw = b
+    if cmp_sw is None:
+        raise MirError("Reader::get: no comparison of the stored checksum with the computed digest found")
+    # the digest covers the key and the payload slice of what was read
+    uf = alias_classes(fn)
+    fr = calls(fn, r"Slice::from_reader::<")
+    sl = calls(fn, r"Slice::slice::<std::ops::RangeFrom<usize>>$")
+    covered = set()
+    for u in ups:
+        arg = RE_LOCAL.findall(u.args)[-1]
+        ch = _call_chain(fn, arg)
+        src = [b for b in live_blocks(fn) if b.kind == "call" and b.dest == arg]
+        # deref(&X): which X?
+        for b in src:
+            l = RE_LOCAL.search(b.args or "")
+            d = [s2 for bb in live_blocks(fn) for s2 in bb.stmts if l and s2.startswith(l.group(0) + " = &")]
+            base = RE_LOCAL.findall(d[0])[1] if d else None
+            for f2 in fr:
+                ok2, _, _ = ok_err(fn, f2, "from_reader")
+                if any(re.match(r"^(_\d+) = move \(\(%s as Continue\)" % re.escape(x), s3) for x in [q.dest for q in live_blocks(fn) if q.kind == "call" and q.idx in [f2.succ[0]]] for s3 in fn.blocks[ok2].stmts) or True:
+                    pass
+            covered.add(base)
+    key_local = None
+    for f2 in fr:
+        ok2, _, _ = ok_err(fn, f2, "from_reader")
+        for st in fn.blocks[ok2].stmts:
+            m = re.match(r"^(_\d+) = move (_\d+)$", st)
+            if m:
+                key_local = m.group(1)
+    data_local = sl[0].dest if len(sl) == 1 else None
+    covers_both = len(ups) >= 2 and key_local in covered and data_local in covered
+    a.glue = [("digest covers the key read from the frame and the payload slice (found updates over %s)" % sorted(x for x in covered if x), "proved" if covers_both else "refuted", 0.0)]
+    ok_ret, err_ret = ret_blocks(fn)
+    a.var("verified").var("mismatch")
+    a.event("ok:checksums equal", [eq_edge] if covers_both else []).on("ok:checksums equal", "verified", True)
+    a.event("err:checksums differ", [ne_edge]).on("err:checksums differ", "mismatch", True)
+    a.event("ret_ok", ok_ret).event("ret_err", err_ret)
+    a.require("ret_ok", "{verified}", "a blob value is returned without its checksum having matched (or the digest does not cover key and payload)")
+    a.require("ret_ok", "(not {mismatch})", "a blob value is returned although the checksum comparison failed")
+    return [a]
+
+
+SPECS["O10.8"] = [blob_read_verifies]
